@@ -64,7 +64,7 @@ func runStress(run *report.Run, mode string, dur time.Duration) {
 
 func init() {
 	checks["C12"] = func(run *report.Run) error {
-		run.Rule = "proof obligations about the facts regenerated from /repo (every reachable access to the registration state under its lock, lock order acyclic, nothing unrecognised) decide the property's logic; the search for a failing schedule is a -race build of the real package under mixed load: 4 serving goroutines (ServeHTTP and Dispatch, both routers) × 2 goroutines doing Add/Remove and Route/RemoveRoute on dynamic services, watchdog for deadlock, every response classified (unchanged services must be answered as if nothing changed; changing ones by a state that existed); the services and dynamic routes that come and go carry path parameters with regular expressions whose text is new every time (in the root path, in a route) and a stable route with an expression is served throughout; a dynamic service with groups of sibling routes (one method and path, told apart by Produces, Consumes or an If condition) that nobody changes while the mutators add further siblings next to them: every untouched sibling must keep answering its own kind of request with its own marker, asked by the serving goroutines during and by the mutator after each addition; evaluations = operations executed; distinct = operation kinds"
+		run.Rule = "proof obligations about the facts regenerated from /repo (every reachable access to the registration state under its lock, lock order acyclic, nothing unrecognised) decide the property's logic; the search for a failing schedule is a -race build of the real package under mixed load: 4 serving goroutines (ServeHTTP and Dispatch, both routers) × 2 goroutines doing Add/Remove and Route/RemoveRoute on dynamic services, watchdog for deadlock, every response classified (unchanged services must be answered as if nothing changed; changing ones by a state that existed); the services and dynamic routes that come and go carry path parameters with regular expressions whose text is new every time (in the root path, in a route) and a stable route with an expression is served throughout; a dynamic service with groups of sibling routes (one method and path, told apart by Produces, Consumes or an If condition) that nobody changes while the mutators add further siblings next to them: every untouched sibling must keep answering its own kind of request with its own marker, asked by the serving goroutines during and by the mutator after each addition; drawn tables (registry.Churn, every round, both routers): root paths from the pool of the C11 stream (shared fixed prefixes, nested roots, variables, \"/\"), sub paths that now and then spell the full path of an earlier route of their WebService, then one WebService (Remove/Add) or the routes of one method and path of a dynamic WebService (RemoveRoute/Route) at a time goes away and comes back while three goroutines ask, through both entry points, every request whose answer is the same on fresh containers of the states before, during and after that change — it must get that answer — and the changing goroutine asks every request after each change returned — it must get the answer of a fresh container of the state in force; evaluations = operations executed; distinct = operation kinds"
 		run.Trusted = []string{"tools/gofacts (go/ast, syntactic, name-resolved calls; unknown constructs fail loudly)", "sync.RWMutex textbook semantics (Lemmas/Lockset.lean)", "race freedom in the Go memory-model sense is inferred from the lock discipline, not proved about compiled code"}
 		run.Assumptions = []string{"entry points of the quantifier: ServeHTTP, Dispatch, OPTIONSFilter, CORS Filter; Add, Remove, Route, RemoveRoute (Handle/Filter registration are outside)", "dynamic routes enabled (the non-dynamic fast path of Routes() is outside the quantifier)"}
 		d := 4 * time.Second
